@@ -129,7 +129,7 @@ def failure_key(case, why):
 
 
 def run(ctx, out, replay=None):
-    n = 700 if ctx.quick() else 20000
+    n = 700 if ctx.quick() else 7000
     out.rule = ("same generator as C02 (guillotine / sparse / grid / sliver layouts; empty, single, multi, full, fixed maps; "
                 "depths 0-3; layouts with different numbers of x- and y-boundaries); must_be_refined probed at 5 thresholds "
                 "before and after every operation; non-trivial = at least two cells; distinct by hash")
